@@ -431,7 +431,7 @@ def read_protocol(viol) -> int:
 
 def run_prop(prop: str, tier: str, replay=None) -> int:
     res = Result(prop, tier)
-    st = prepare(prop, translate=translate.run_all)
+    st = prepare(prop, translate=translate.run_all, extra_modules=["RzilVerif.Props.PerOutput"] if prop in ("C11", "C12", "C16") else [])
     res.proof = st
 
     viol = []  # (payload)
